@@ -147,6 +147,7 @@ package api
 //@   modifies nothing
 //@   ensures (err == nil) == TotalClaimsOK(sa, thresholds, exclude)
 //@   ensures err == nil ==> result0 != nil && fresh(result0) && quantity.Val(result0) >= 0
+//@   ensures err == nil && exclude == nil ==> quantity.Val(result0) == uf("totalClaims", sa, thresholds)
 //@   ensures err != nil ==> result0 == nil
 //@   note sums the thresholds of the recorded claims; fails only for a threshold kind missing from the map or an invalid quantity (named by TotalClaimsOK)
 
